@@ -195,6 +195,15 @@ class WindowedMeanSquaredError(
         else:
             return windowed_mse.squeeze()
 
+    def reset(self: TWindowedMeanSquaredError) -> TWindowedMeanSquaredError:
+        """
+        Reset the metric state variables to their default value and rewind
+        the window cursor, which is not a registered state.
+        """
+        super().reset()
+        self.next_inserted = 0
+        return self
+
     @torch.inference_mode()
     def merge_state(
         self: TWindowedMeanSquaredError, metrics: Iterable[TWindowedMeanSquaredError]
